@@ -262,6 +262,16 @@ class Body:
                 rv = st['rv']
                 if rv['k'] == 'use' and rv['op']['k'] == 'const' and 'val' in rv['op']:
                     env[lhs['l']] = rv['op']['val']
+                elif rv['k'] == 'agg' and rv.get('agg') == 'adt' and rv.get('variant'):
+                    # an enum value built in place: its discriminant is known
+                    env[lhs['l']] = ('variant', rv['variant'])
+                elif rv['k'] == 'discr' and not rv['place']['p'] and isinstance(env.get(rv['place']['l']), tuple):
+                    name = env[rv['place']['l']][1]
+                    dv = [v for v, n_ in rv.get('variants', []) if n_ == name]
+                    if len(dv) == 1:
+                        env[lhs['l']] = dv[0]
+                    else:
+                        env.pop(lhs['l'], None)
                 elif rv['k'] == 'use' and rv['op']['k'] in ('copy', 'move') and not rv['op']['place']['p'] \
                         and rv['op']['place']['l'] in env:
                     env[lhs['l']] = env[rv['op']['place']['l']]
@@ -325,6 +335,8 @@ class Body:
                     d = bc['term']['discr']
                     if d['k'] in ('copy', 'move') and not d['place']['p'] and d['place']['l'] in env:
                         kv = env[d['place']['l']]
+                        if isinstance(kv, tuple):
+                            break
                         tgt = bc['term']['otherwise']
                         for val, tb in bc['term']['targets']:
                             if val == kv:
@@ -960,15 +972,47 @@ class Facts:
                 unknown -= set(self.renamed)
         self.unknown_functions = unknown
         self.inlined = {}
+        self.desugared = {}
+        self._raw = raw
+        self._norm = {}
+        kc = os.path.join(os.path.dirname(os.path.abspath(__file__)), 'known_closures.json')
+        self.known_closures = json.load(open(kc)) if os.path.exists(kc) else None
+        import desugar
+
+        def is_new(cpath, kind, j):
+            # a closure is new when the reference tree had no closure handed to this combinator in
+            # the same top-level function
+            if self.known_closures is None:
+                return False
+            # (the function it is spliced into counts: a closure that moved into a new helper
+            # together with its loop is still the reference closure)
+            root = j.get('root') or j['path']
+            root = self.renamed.get(root, root)
+            return kind not in self.known_closures.get(root, [])
+        ds = desugar.Desugarer(raw, is_new)
         for b in self.j['bodies']:
             jb = inline_new_callees(raw, b, unknown) if unknown else b
             if jb is not b:
                 self.inlined[b['path']] = jb['inlined']
-            self.bodies[b['path']] = Body(self, jb)
+            jd = ds.run(jb)
+            if jd is not jb:
+                self.desugared[b['path']] = jd['desugared']
+            jd = desugar.split_switch_operands(jd)
+            self.bodies[b['path']] = Body(self, jd)
         self.adts = dict((a['path'], a) for a in self.j['adts'])
         self.impls = self.j['impls']
         self.items = dict((a['path'], a) for a in self.j['items'])
         self.nbodies = len(self.bodies)
+
+    def norm(self, body):
+        """the body with every closure of a known std combinator expanded (normal form A12)"""
+        path = body if isinstance(body, str) else body.path
+        if path not in self._norm:
+            import desugar
+            jb = self.bodies[path].j
+            jd = desugar.Desugarer(self._raw, lambda c, k, j: True).run(jb)
+            self._norm[path] = self.bodies[path] if jd is jb else Body(self, desugar.split_switch_operands(jd))
+        return self._norm[path]
 
     def body(self, path, what=None):
         if path in self.bodies:
@@ -1007,12 +1051,22 @@ class Facts:
         raise AnchorMissing('%s: not found by name /%s/ (%d) nor uniquely by role (%d candidates)' %
                             (what, regex, len(bs), len(hits)))
 
+    def _spliced(self, body):
+        """closures whose body already lives inside another body (A12): not separate units any more"""
+        out = set(body.j.get('desugared', []))
+        for v in self.desugared.values():
+            out.update(v)
+        return out
+
     def closures_of(self, body):
-        return [b for b in self.bodies.values() if b.kind == 'Closure' and b.j['parent'] == body.path]
+        sp = self._spliced(body)
+        return [b for b in self.bodies.values() if b.kind == 'Closure' and b.j['parent'] == body.path
+                and b.path not in sp]
 
     def closures_under(self, body):
+        sp = self._spliced(body)
         return [b for b in self.bodies.values()
-                if b.kind == 'Closure' and b.path.startswith(body.path + '::{closure')]
+                if b.kind == 'Closure' and b.path.startswith(body.path + '::{closure') and b.path not in sp]
 
     def adt(self, path, what=None):
         if path in self.adts:
